@@ -90,6 +90,9 @@ def classify(task, rec, clauses):
         if c in ("retry_after_failed_attempt", "retry_within_attempts", "inv_AttemptsBounded") and task["opts"].get("retry", 1) == 1:
             # without retry a second attempt of a call is a second execution (C04)
             out.setdefault("C04", []).append(c if l == first_l else c + "(secondary)")
+        if c in ("raise_names_failed_call", "inv_RaiseNamesFailure", "ret_needed_all_ok", "inv_ExactlyNeeded") and not had_failure and not interrupted:
+            # no call failed, yet run raised / returned without having evaluated everything: not the value of direct evaluation (C02)
+            out.setdefault("C02", []).append(c if l == first_l else c + "(secondary)")
         if c == "start_no_failed_ancestor":
             out.setdefault("C01", []).append(c if l == first_l else c + "(secondary)")
         if c == "start_needed" and rec["outcome"] != "returned":
